@@ -750,6 +750,7 @@ const (
 type singleAsPathMatch struct {
 	asn  uint32
 	mode singleAsPathMatchMode
+	re   *regexp.Regexp
 }
 
 func (lhs *singleAsPathMatch) Equal(rhs *singleAsPathMatch) bool {
@@ -933,6 +934,7 @@ func NewAsPathSet(c oc.AsPathSet) (*AsPathSet, error) {
 	singleList := make([]*singleAsPathMatch, 0, len(c.AsPathList))
 	for _, x := range c.AsPathList {
 		if s := NewSingleAsPathMatch(x); s != nil {
+			s.re = regexp.MustCompile(strings.ReplaceAll(s.String(), "_", ASPATH_REGEXP_MAGIC))
 			singleList = append(singleList, s)
 		} else {
 			exp, err := regexp.Compile(strings.ReplaceAll(x, "_", ASPATH_REGEXP_MAGIC))
@@ -2174,8 +2176,17 @@ func (c *AsPathCondition) Option() MatchOption {
 func (c *AsPathCondition) Evaluate(path *Path, _ *PolicyOptions) bool {
 	if len(c.set.singleList) > 0 {
 		aspath := path.GetAsSeqList()
+		onlySeq := true
+		if attr := path.GetAsPath(); attr != nil {
+			for _, param := range attr.Value {
+				onlySeq = onlySeq && param.GetType() == bgp.BGP_ASPATH_ATTR_TYPE_SEQ
+			}
+		}
 		for _, m := range c.set.singleList {
 			result := m.Match(aspath)
+			if !onlySeq && m.re != nil {
+				result = m.re.MatchString(path.GetAsString())
+			}
 			if c.option == MATCH_OPTION_ALL && !result {
 				return false
 			}
